@@ -618,10 +618,11 @@ func genC12(c *Ctx) {
 			genCase(names, func(i, j int) bool { return j < n && gg&(1<<(i*n+j)) != 0 }, nil, 1+r.IntN(maxUps))
 		}
 	}
-	// 1b. thorough: every include graph on 4 files
+	// 1b. thorough: one include graph in seven on 4 files (all 65 536 would produce several GB
+	// of recorded views); the offset depends on the seed
 	if c.Thorough() {
 		n := 4
-		for g := 0; g < 1<<(n*n); g++ {
+		for g := int(c.Seed % 7); g < 1<<(n*n); g += 7 {
 			names, mode := c12Names(r, n)
 			c.Count(mode)
 			c.Count(fmt.Sprintf("files.%d", n))
@@ -630,7 +631,7 @@ func genC12(c *Ctx) {
 		}
 	}
 	// 2. random workspaces of 2..5 files, sometimes with include targets that do not exist yet
-	for i := 0; i < c.N(900, 30000); i++ {
+	for i := 0; i < c.N(900, 8000); i++ {
 		n := 2 + r.IntN(4)
 		names, mode := c12Names(r, n)
 		c.Count(mode)
